@@ -29,7 +29,6 @@ import (
 
 	"github.com/rulego/streamsql/types"
 	"github.com/rulego/streamsql/utils/cast"
-	"github.com/rulego/streamsql/utils/fieldpath"
 )
 
 // Ensure SessionWindow struct implements Window interface
@@ -734,13 +733,8 @@ func extractSessionCompositeKey(data any, keys []string) string {
 	if m, ok := data.(map[string]any); ok {
 		parts := make([]string, 0, len(keys))
 		for _, k := range keys {
-			val, ok := m[k]
-			if !ok && fieldpath.IsNestedField(k) {
-				// GROUP BY dev.id: the key is a path into the row, as the aggregator resolves it
-				val, _ = fieldpath.GetNestedField(m, k)
-			}
 			// Escaped so that values containing "|" and NULL vs "" never share a key.
-			parts = append(parts, cast.GroupKeyPart(val, '|'))
+			parts = append(parts, cast.GroupKeyPart(m[k], '|'))
 		}
 		return strings.Join(parts, "|")
 	}
